@@ -6,7 +6,7 @@ extraction is validated numerically against the running `gauss`). The two `…_o
 evaluated by the kernel on the current tables; everything else follows from the soundness theorems of
 `DarsiaProofs.Quadrature*`, which are about real numbers (`np.sqrt` ↦ `Real.sqrt`).
 -/
-import DarsiaProofs.QuadratureMain
+import DarsiaProofs.QuadratureConsumer
 import DarsiaGen.QuadratureTables
 namespace Darsia.C15
 open Darsia Darsia.Quad
@@ -53,6 +53,42 @@ theorem gauss_integrates_polynomials : ∀ p ∈ Gen.accepted, ∃ r, Gen.rule p
   refine ⟨r, hr, fun terms ht => exact_polyN hs.exact terms (fun c hc => ?_)⟩
   exact ⟨(ht c hc).1, fun e he => by have := (ht c hc).2 e he; omega⟩
 
+/-- **d = 2, one object**: for every polynomial `P` of per-variable degree `≤ 2(order+1)−1` (given by its
+terms), the rule applied to `P` is the iterated integral of `P` over the square — on `[-1,1]²` for `gauss`
+and on `[0,1]²` for `gauss_reference_cell`. -/
+theorem gauss_exact_polynomials_2d : ∀ p ∈ Gen.accepted, p.1 = 2 → ∃ r, Gen.rule 2 p.2 = .ok r ∧
+    ∀ terms : List (ℝ × List ℕ), (∀ c ∈ terms, c.2.length = 2 ∧ ∀ e ∈ c.2, e ≤ 2 * p.2 + 1) →
+      (r.real.map fun pw => pw.2 * polyEval terms pw.1).sum
+          = ∫ x in (-1 : ℝ)..1, ∫ y in (-1 : ℝ)..1, polyEval terms [x, y] ∧
+      (r.toUnitCell.real.map fun pw => pw.2 * polyEval terms pw.1).sum
+          = ∫ x in (0 : ℝ)..1, ∫ y in (0 : ℝ)..1, polyEval terms [x, y] := by
+  intro p hp h2
+  obtain ⟨d, o⟩ := p
+  simp only at h2; subst h2
+  obtain ⟨r, hr, hs, hu⟩ := checkTable_sound (table_obligations (2, o) hp)
+  refine ⟨r, hr, fun terms ht => ?_⟩
+  have hdeg : ∀ c ∈ terms, c.2.length = 2 ∧ ∀ e ∈ c.2, e ≤ 2 * (o + 1) - 1 :=
+    fun c hc => ⟨(ht c hc).1, fun e he => by have := (ht c hc).2 e he; omega⟩
+  rw [integral_polyEval_2d terms (fun c hc => (ht c hc).1), integral_polyEval_2d terms (fun c hc => (ht c hc).1)]
+  exact ⟨exact_polyN hs.exact terms hdeg, exact_polyN hu.exact terms hdeg⟩
+
+/-- **d = 3, one object** -/
+theorem gauss_exact_polynomials_3d : ∀ p ∈ Gen.accepted, p.1 = 3 → ∃ r, Gen.rule 3 p.2 = .ok r ∧
+    ∀ terms : List (ℝ × List ℕ), (∀ c ∈ terms, c.2.length = 3 ∧ ∀ e ∈ c.2, e ≤ 2 * p.2 + 1) →
+      (r.real.map fun pw => pw.2 * polyEval terms pw.1).sum
+          = ∫ x in (-1 : ℝ)..1, ∫ y in (-1 : ℝ)..1, ∫ z in (-1 : ℝ)..1, polyEval terms [x, y, z] ∧
+      (r.toUnitCell.real.map fun pw => pw.2 * polyEval terms pw.1).sum
+          = ∫ x in (0 : ℝ)..1, ∫ y in (0 : ℝ)..1, ∫ z in (0 : ℝ)..1, polyEval terms [x, y, z] := by
+  intro p hp h3
+  obtain ⟨d, o⟩ := p
+  simp only at h3; subst h3
+  obtain ⟨r, hr, hs, hu⟩ := checkTable_sound (table_obligations (3, o) hp)
+  refine ⟨r, hr, fun terms ht => ?_⟩
+  have hdeg : ∀ c ∈ terms, c.2.length = 3 ∧ ∀ e ∈ c.2, e ≤ 2 * (o + 1) - 1 :=
+    fun c hc => ⟨(ht c hc).1, fun e he => by have := (ht c hc).2 e he; omega⟩
+  rw [integral_polyEval_3d terms (fun c hc => (ht c hc).1), integral_polyEval_3d terms (fun c hc => (ht c hc).1)]
+  exact ⟨exact_polyN hs.exact terms hdeg, exact_polyN hu.exact terms hdeg⟩
+
 /-- the product of 1-D integrals used above is the iterated integral of the monomial (2-D, 3-D) -/
 theorem monomial_integral_2d (i j : ℕ) :
     ∫ x in (-1 : ℝ)..1, ∫ y in (-1 : ℝ)..1, x ^ i * y ^ j
@@ -94,6 +130,82 @@ theorem gauss_reference_cell_exact : ∀ p ∈ Gen.accepted, ∃ r, Gen.rule p.1
 integrated exactly over `[0,1]^dim`. -/
 theorem corner_rule_multilinear : ∀ dim ∈ Gen.cornerDims, ∃ r, Gen.corners dim = .ok r ∧ CornerSpec r dim :=
   fun dim hd => checkCorners_sound (corner_obligations dim hd)
+
+/-! ### the consumer: `transport_density` / `l1_dissipation` (wasserstein.py) -/
+
+/-- the unit-cell rule of every accepted `(dim, order)` has what a consumer needs: non-negative weights
+summing to 1, `dim` coordinates per point, centroid at the cell centre (exported for C05) -/
+theorem unit_cell_rule_facts : ∀ p ∈ Gen.accepted, ∃ r, Gen.rule p.1 p.2 = .ok r ∧
+    UnitRuleFacts r.toUnitCell.real p.1 := by
+  intro p hp
+  obtain ⟨r, hr, hu⟩ := gauss_reference_cell_exact p hp
+  exact ⟨r, hr, hu.facts (by omega)⟩
+
+/-- … and so has the corner rule -/
+theorem corner_rule_facts : ∀ dim ∈ Gen.cornerDims, ∃ r, Gen.corners dim = .ok r ∧ UnitRuleFacts r.real dim := by
+  intro dim hd
+  obtain ⟨r, hr, hc⟩ := corner_rule_multilinear dim hd
+  exact ⟨r, hr, hc.facts⟩
+
+/-- every L1 mode's quadrature call (extracted from `transport_density`) resolves to a proved rule -/
+theorem l1_obligation : checkL1 Gen.accepted Gen.cornerDims Gen.l1Source = true := by decide
+
+/-- **the rule `transport_density` sums over, in every L1 mode and every dimension with tables**, has the
+consumer facts. -/
+theorem l1_rule_facts : ∀ mode ∈ L1Mode.all, ∀ p ∈ Gen.accepted,
+    ∃ r, l1Rule Gen.maxOrder Gen.rule Gen.corners Gen.l1Source mode p.1 = .ok r ∧ UnitRuleFacts r.real p.1 := by
+  intro mode hmode p hp
+  have hc := l1_obligation
+  simp only [checkL1, List.all_eq_true] at hc
+  have h := hc mode hmode p hp
+  unfold l1Rule
+  cases hs : Gen.l1Source mode with
+  | error e => simp [hs] at h
+  | ok src =>
+    cases src with
+    | corners =>
+      simp only [hs, decide_eq_true_eq] at h
+      obtain ⟨r, hr, hf⟩ := corner_rule_facts p.1 h
+      exact ⟨r, hr, hf⟩
+    | cell o =>
+      cases o with
+      | n k =>
+        simp only [hs, decide_eq_true_eq] at h
+        obtain ⟨r, hr, hf⟩ := unit_cell_rule_facts (p.1, k) h
+        exact ⟨r.toUnitCell, by simp only [gaussM]; rw [hr]; rfl, hf⟩
+      | max =>
+        obtain ⟨o, ho, hacc⟩ := max_alias p hp
+        obtain ⟨r, hr, hf⟩ := unit_cell_rule_facts (p.1, o) hacc
+        exact ⟨r.toUnitCell, by simp only [gaussM, ho]; rw [hr]; rfl, hf⟩
+
+/-- **exact for the components of a cell-wise affine flux**: the rule of every L1 mode returns, for each
+component `c0 + Σ_j c_j p_j`, its value at the cell centre (= its mean over the cell). -/
+theorem transport_quadrature_affine_exact : ∀ mode ∈ L1Mode.all, ∀ p ∈ Gen.accepted,
+    ∃ r, l1Rule Gen.maxOrder Gen.rule Gen.corners Gen.l1Source mode p.1 = .ok r ∧
+      ∀ (c0 : ℝ) (c : ℕ → ℝ), (r.real.map fun pw => pw.2 * (c0 + ∑ j ∈ Finset.range p.1, c j * pw.1.getD j 0)).sum
+        = c0 + ∑ j ∈ Finset.range p.1, c j * (1 / 2) := by
+  intro mode hmode p hp
+  obtain ⟨r, hr, hf⟩ := l1_rule_facts mode hmode p hp
+  exact ⟨r, hr, fun c0 c => quad_affine hf c0 c p.1 le_rfl⟩
+
+/-- **‖mean flux‖ ≤ transport density** for every seminorm, every L1 mode and every flux that is affine in the
+cell (RT0 reconstruction, with or without cell weights): the hypothesis of C05's first-moment bound. -/
+theorem transport_density_ge_mean : ∀ mode ∈ L1Mode.all, ∀ p ∈ Gen.accepted,
+    ∃ r, l1Rule Gen.maxOrder Gen.rule Gen.corners Gen.l1Source mode p.1 = .ok r ∧
+      ∀ (N : (ℕ → ℝ) → ℝ), IsSeminormR N → ∀ flux, IsAffineFlux p.1 flux →
+        N (flux (List.replicate p.1 (1 / 2))) ≤ density N r.real flux := by
+  intro mode hmode p hp
+  obtain ⟨r, hr, hf⟩ := l1_rule_facts mode hmode p hp
+  exact ⟨r, hr, fun N hN flux ha => norm_mean_le_density hN hf ha⟩
+
+/-- the same on the exact ℚ model of `transport_density` (DarsiaModel.Transport): any rule with
+non-negative weights summing to 1 and centroid `mid` -/
+theorem transport_density_ge_mean_rat {N : (Nat → Rat) → Rat} (hN : IsSeminorm N) (shape : List Nat) (nq : Nat)
+    (wq : Nat → Rat) (ptq : Nat → List Rat) (wgt : List Nat → Nat → Rat) (U : Nat → Rat) (c : Nat)
+    (mid : List Rat) (hw : ∀ q, q < nq → 0 ≤ wq q) (h0 : sumTo nq wq = 1)
+    (hmom : ∀ a, sumTo nq (fun q => wq q * (ptq q).getD a 0) = mid.getD a 0) :
+    N (cellVec shape U wgt mid (decF shape c)) ≤ transportDensity N shape nq wq ptq wgt U c :=
+  mean_le_transportDensity hN shape nq wq ptq wgt U c mid hw h0 hmom
 
 /-! ### the general theorems the obligations rest on (any table, any dimension) -/
 
